@@ -246,6 +246,19 @@ def f_rel(n=2, on="both", extra=True):
         yield D([[M("M0"), M("M1"), M("M2"), T("T0", [call("M0")]), T("T1", [call("M1")]), T("T2", [call("M2")])]],
                 [["before_rd", "M0", "M2", None], ["before_rd", "T1", "M2", None]])
         yield D([[M("M0"), T("T1", [call("M0")]), T("T0", [M("N0")]), T("T2", [call("N0")])]], [["before_rd", "T1", "N0", None]])
+        # a prioritised conflict between two bodies that ALSO conflict implicitly (shared exclusive method); the same pair
+        # declared twice, plain first and prioritised afterwards (and the other way round)
+        for r in RELS[2:4]:
+            yield D([[M("M0"), T("T0", [call("M0")]), T("T1", [call("M0")])]], [[r[0], "T0", "T1", r[1]]])
+            yield D([[M("M0"), M("M1"), M("M2"), T("T0", [call("M1"), call("M0")]), T("T1", [call("M2"), call("M0")])]],
+                    [[r[0], "M1", "M2", r[1]]])
+            yield D([[M("M0"), M("M1"), M("A", [call("M0")]), T("T0", [call("A")]), T("T1", [call("M1"), call("M0")])]],
+                    [[r[0], "A", "M1", r[1]]])
+            for names in (("T0", "T1"), ("M0", "M1")):
+                defs = [M("M0"), M("M1"), T("T0", [call("M0")]), T("T1", [call("M1")])]
+                yield D([defs], [["conf", names[0], names[1], "U"], [r[0], names[0], names[1], r[1]]])
+                yield D([defs], [[r[0], names[0], names[1], r[1]], ["conf", names[0], names[1], "U"]])
+                yield D([defs], [["conf", names[1], names[0], "U"], [r[0], names[0], names[1], r[1]]])
         # shared exclusive method + prioritised explicit conflict elsewhere
         for r in RELS[1:4]:
             yield D([[M("M0"), M("M1"), T("T0", [call("M0")]), T("T1", [call("M0"), call("M1")]), T("T2", [call("M1")])]],
